@@ -25,6 +25,8 @@ SPEC_POOL = [
     dict(regex=rb"Q\?", fmt=None), dict(regex=r"S (\d+) (\d+)", fmt="ascii"), dict(regex=rb"\x01(\d)", fmt=None),
     dict(regex=r"[A-C]", fmt="utf-8"), dict(regex=rb".", fmt=None), dict(regex=r"\d\d?", fmt="latin-1"),
     dict(regex=rb"[\x80-\xff]", fmt=None), dict(regex=r"é(\d)", fmt="utf-8"), dict(regex=r"", fmt="utf-8"),
+    # alternation at the top level of the pattern (the whole message must be one of the alternatives)
+    dict(regex=rb"on|off", fmt=None), dict(regex=r"up|down", fmt="utf-8"),
 ]
 
 
@@ -120,9 +122,11 @@ def gen_messages(rng, specs, tier):
         alpha = [0x00, 0x01, 0x20, 0x30, 0x39, 0x3d, 0x3f, 0x41, 0x50, 0x51, 0x7f, 0x80, 0xc3, 0xa9, 0xff]
         msgs += [bytes([a, b]) for a in alpha for b in alpha]
     derived = []
-    samples = [b"P=7", b"P=12", b"Q?", b"S 1 2", b"\x015", b"A", b"B", b"7", b"42", "é3".encode(), b"\xe9"]
+    samples = [b"P=7", b"P=12", b"Q?", b"S 1 2", b"\x015", b"A", b"B", b"7", b"42", "é3".encode(), b"\xe9",
+               b"on", b"off", b"once", b"up", b"down3", b"upper", b"down"]
     for s in samples:
-        derived += [s, s[:-1], s + b"x", b" " + s + b"\r\n", s + s, s.lower(), s[:1] + b"\xff" + s[1:], b"\xc3" + s, s + b"\x80"]
+        derived += [s, s[:-1], s + b"x", b" " + s + b"\r\n", s + s, s.lower(), s[:1] + b"\xff" + s[1:], b"\xc3" + s, s + b"\x80",
+                    s + b"\n", s + b"\r\n", s + b"\n\n", b"\n" + s]
     return msgs, [d for d in derived if d]
 
 
